@@ -114,3 +114,15 @@ func TestToUnicodeOfEverySimpleFontSubtype(t *testing.T) {
 		}
 	}
 }
+
+// a hex string may be wrapped over lines (ISO 32000-1 7.3.4.3: white space inside <...> is ignored)
+func TestHexTokenWrappedOverLines(t *testing.T) {
+	for _, sep := range []string{" ", "\n", "\r\n", "\t"} {
+		cm := cmapOf(t, "3 beginbfrange\n<0010> <0010> [<D83D"+sep+"DC4B>]\n<0011> <0012> <D83D"+sep+"DE00>\n<0013> <0013> <00"+sep+"41>\nendbfrange\n1 beginbfchar\n<0014> <00"+sep+"42>\nendbfchar")
+		for code, want := range map[byte]string{0x10: "\U0001F44B", 0x11: "\U0001F600", 0x12: "\U0001F601", 0x13: "A", 0x14: "B"} {
+			if got := cm.LookupString([]byte{0, code}); got != want {
+				t.Errorf("separator %q: code %02x decodes to %q, want %q", sep, code, got, want)
+			}
+		}
+	}
+}
